@@ -870,9 +870,23 @@ def r01_7(ctx, counts: dict[str, int]) -> RuleResult:
             restores = [x for x in walk_local(f.node) if is_restore_of(x, var)]
             if not restores:
                 continue
-            last = max(r.lineno for r in restores)
-            ys = [y for y in walk_local(f.node) if isinstance(y, (ast.Yield, ast.YieldFrom))
-                  and sv.lineno < y.lineno < last]
+            # the statements that follow the save in its own block (a yield of another
+            # branch of the function does not run with this focus moved)
+            after: list[ast.stmt] = []
+            for blk_owner in ast.walk(f.node):
+                for fld in ('body', 'orelse', 'finalbody'):
+                    blk = getattr(blk_owner, fld, None)
+                    if isinstance(blk, list) and sv in blk:
+                        after = blk[blk.index(sv) + 1:]
+            ys = [y for st_ in after for y in ast.walk(st_)
+                  if isinstance(y, (ast.Yield, ast.YieldFrom))]
+            stop_at = [i_ for i_, st_ in enumerate(after) if is_restore_of(st_, var) or (
+                isinstance(st_, ast.Try) and any(
+                    is_restore_of(r, var) for fb in st_.finalbody for r in ast.walk(fb)))]
+            if stop_at:
+                upto = stop_at[0] + (1 if isinstance(after[stop_at[0]], ast.Try) else 0)
+                ys = [y for st_ in after[:upto] for y in ast.walk(st_)
+                      if isinstance(y, (ast.Yield, ast.YieldFrom))]
             for y in ys:
                 n += 1
                 guarded = any(isinstance(t, ast.Try) and any(
